@@ -108,3 +108,12 @@ Fixpoint completion_walk (n : option nat) (sts : list fstim) (c : cstate) (first
 Definition completion_ok (n : option nat) (sts : list fstim) (out : list fout) : bool :=
   completion_walk n sts {| c_arrived := 0; c_outer_done := false; c_outer_live := true; c_bal := 0; c_nsub := 0;
                            c_finished := false |} true out.
+
+(* after unsubscribe() has returned nothing is delivered and no inner observable is started *)
+Fixpoint silent_after_unsub (sts : list fstim) (unsub : bool) (out : list fout) : bool :=
+  match out with
+  | [] => true
+  | FMark j :: r =>
+      silent_after_unsub sts (unsub || match nth_error sts j with Some FUnsub => true | _ => false end) r
+  | _ :: r => negb unsub && silent_after_unsub sts unsub r
+  end.
